@@ -75,3 +75,20 @@ func init() {
 		return out, true
 	})
 }
+
+func init() {
+	// randomness: an arbitrary admissible value. Shuffle keeps the order (any order is admissible
+	// and the callers do not depend on it); FastRand(n) is a decision over [0,n) for small n.
+	reg("math/rand.Shuffle", nop)
+	reg("math/rand/v2.Shuffle", nop)
+	reg("github.com/redis/rueidis/internal/util.FastRand", func(m *machine, fr *frame, fn *ssa.Function, a []value) (value, bool) {
+		n := m.concInt(a[0], "FastRand")
+		if n <= 1 {
+			return int64(0), true
+		}
+		if n <= 4 {
+			return int64(m.choose(int(n), "FastRand")), true
+		}
+		return int64(0), true
+	})
+}
